@@ -34,6 +34,8 @@ def jsonable(o, depth=0):
         return str(o)
     if o is None or isinstance(o, (bool, str)):
         return o
+    if isinstance(o, np.bool_):
+        return bool(o)
     if isinstance(o, (int, np.integer)):
         return int(o)
     if isinstance(o, (float, np.floating)):
